@@ -41,3 +41,12 @@ def parser_for(cfg: dict):
     for f in cfg.get("flags", ["TWOSIDED", "MULTIPART"]):
         flags |= getattr(DefaultFormulaParser.FeatureFlags, f)
     return DefaultFormulaParser(include_intercept=cfg.get("intercept", True), feature_flags=flags)
+
+
+def model_matrix(spec, data, **kw):
+    """formulaic.model_matrix with an explicit empty context: the default (context=0) captures the *caller's*
+    local variables, i.e. the harness's own locals, which could shadow transforms such as `exp`."""
+    from formulaic import model_matrix as _mm
+
+    kw.setdefault("context", {})
+    return _mm(spec, data, **kw)
